@@ -84,6 +84,38 @@ Theorem C17_containment_test_complete : forall dir ks,
 Proof. exact in_dir_join_good. Qed.
 Print Assumptions C17_containment_test_complete.
 
+(** ** Entry types *)
+
+(** Tar entries that are neither regular files nor directories — symbolic
+    links, hard links, character and block devices, fifos — are never
+    written: the extraction stops with "not supported" (or refuses the name),
+    leaving the file system as it was.  So an archive cannot plant a link
+    that a later entry would be written through. *)
+Theorem C17_untar_links_and_devices_never_written : forall c f dir e,
+  e_kind e = KOther ->
+  snd (untar_entry c f dir e) = f /\
+  (fst (untar_entry c f dir e) = Some XUnsupported \/ fst (untar_entry c f dir e) = Some XRefused).
+Proof. exact untar_other_writes_nothing. Qed.
+Print Assumptions C17_untar_links_and_devices_never_written.
+
+(** Zip entries whose mode says symbolic link, device, fifo or socket are
+    written as regular files holding the entry's bytes, exactly as a regular
+    entry with the same permission bits would be. *)
+Theorem C17_unzip_link_modes_become_regular_files : forall c f dir e,
+  e_kind e <> KDir ->
+  unzip_entry c f dir e =
+  unzip_entry c f dir {| e_name := e_name e; e_kind := KFile; e_perm := e_perm e; e_data := e_data e |}.
+Proof. exact unzip_non_dir_is_regular. Qed.
+Print Assumptions C17_unzip_link_modes_become_regular_files.
+
+(** [writeFirstFileAs] uses no entry name at all: only the caller's file can
+    change. *)
+Theorem C17_first_file_confined : forall c file es f k,
+  (forall t, resolve (cwd c) file = Some t -> k <> t) ->
+  lookup (snd (first_file_as c f file es)) k = lookup f k.
+Proof. exact first_file_confined. Qed.
+Print Assumptions C17_first_file_confined.
+
 (** ** Round trip *)
 
 (** Extracting [ZipDir]'s entry list of a well-formed tree into an absent
